@@ -876,7 +876,43 @@ def rule_novar_cycle(repo):
     return r
 
 
-RULES = [rule_visitor, rule_funcfold, rule_overlap, rule_pairing, rule_netblk, rule_kahn, rule_greenlet, rule_novar_cycle]
+def rule_cache_scope(repo):
+    r = RuleResult('R-C02-cache-scope', "read/write metadata cached per update-block name belongs to the exact class that defines the "
+                                        "block (a subclass redefining a block name must not reuse the parent's metadata)")
+    m = repo.mod(L2)
+    f = m.get_func('ComponentLevel2._cache_func_meta')
+    caches = ('_name_info', '_name_rd', '_name_wr', '_name_fc')
+    creates = [s for s in ast.walk(f) if isinstance(s, ast.Assign) and any(isinstance(t, ast.Attribute) and t.attr in caches for t in s.targets)]
+    if len(creates) < 4:
+        raise AnalysisError("anchor vanished: per-class metadata caches in _cache_func_meta")
+    # how is presence of the cache decided?  accepted: membership test in cls.__dict__ / vars(cls); rejected: attribute access
+    # on the class guarded by try/except or hasattr/getattr (these follow inheritance)
+    c0 = creates[0]
+    gs = guards_of(c0)
+    own = [g for g in gs if g.kind == 'if' and isinstance(g.test, ast.Compare) and len(g.test.ops) == 1 and
+           isinstance(g.test.ops[0], (ast.In, ast.NotIn)) and norm(g.test.comparators[0]) in ('cls.__dict__', 'vars(cls)', 's.__class__.__dict__')
+           and norm(g.test.left).strip("'\"") in caches and (isinstance(g.test.ops[0], ast.NotIn) == g.polarity)]
+    inherited = [g for g in gs if g.kind == 'except'] or [g for g in gs if g.kind == 'if' and ('hasattr' in norm(g.test) or 'getattr' in norm(g.test))]
+    cons = f"creation of {', '.join(caches)} on the class"
+    if own:
+        r.ok(m, 'ComponentLevel2._cache_func_meta', cons + f" guarded by `{norm(own[0].test)}`")
+    elif inherited:
+        r.bad(m, 'ComponentLevel2._cache_func_meta', cons, "the cache is looked up by attribute access on the class, which follows inheritance: "
+              "class B(A) redefining update block `up` reuses A's read/write sets for it (missing constraints; registers written by B.up are "
+              "never double-buffered)", c0.lineno)
+    else:
+        r.bad(m, 'ComponentLevel2._cache_func_meta', cons, "cannot see a test that the cache dictionaries belong to this exact class", c0.lineno)
+    # a cached entry is reused only under `name in name_info` of that per-class dict; lambdas (given) always overwrite
+    reuse = [s for s in ast.walk(f) if isinstance(s, ast.If) and norm(s.test) == 'given is not None']
+    ok = len(reuse) == 1 and len(reuse[0].orelse) == 1 and isinstance(reuse[0].orelse[0], ast.If) and \
+        norm(reuse[0].orelse[0].test) == 'name not in name_info'
+    (r.ok if ok else r.bad)(m, 'ComponentLevel2._cache_func_meta', 'parse unless `name in name_info`; generated (lambda) blocks always re-parsed',
+                            *([] if ok else ["metadata reuse condition changed: a stale entry may be used for a different block", f.lineno]))
+    r.require_floor(2)
+    return r
+
+
+RULES = [rule_visitor, rule_funcfold, rule_overlap, rule_pairing, rule_netblk, rule_kahn, rule_greenlet, rule_novar_cycle, rule_cache_scope]
 
 
 def _m(name, file, old, new, rule=None, count=1):
@@ -884,6 +920,9 @@ def _m(name, file, old, new, rule=None, count=1):
 
 
 MUTANTS = [
+    _m('D15-cache-inherited', L2, "    if '_name_info' in cls.__dict__:\n      name_info = cls._name_info\n      name_rd   = cls._name_rd\n      name_wr   = cls._name_wr\n      name_fc   = cls._name_fc\n    else:\n",
+       "    try:\n      name_info = cls._name_info\n      name_rd   = cls._name_rd\n      name_wr   = cls._name_wr\n      name_fc   = cls._name_fc\n    except Exception:\n", 'R-C02-cache-scope'),
+    _m('cache-hasattr', L2, "    if '_name_info' in cls.__dict__:", "    if hasattr( cls, '_name_info' ):", 'R-C02-cache-scope'),
     _m('D4-kwargs-not-visited', ASTH, "    for x in node.args:\n      self.visit( x )\n    for x in node.keywords:\n      self.visit( x.value )\n", "    for x in node.args:\n      self.visit( x )\n", 'R-C02-visitor'),
     _m('D14-index-expr-not-visited', ASTH, "        else: # arbitrary index expression such as s.x[ s.i + 1 ]\n          self.visit( v )\n\n        num.append(n)\n\n        nodelist.append( node )\n        node = node.value\n\n      if   isinstance", "\n        num.append(n)\n\n        nodelist.append( node )\n        node = node.value\n\n      if   isinstance", 'R-C02-visitor'),
     _m('augassign-value-not-visited', ASTH, "    self.current_op = None\n    self.visit( node.value  )", "    self.current_op = None", 'R-C02-visitor'),
@@ -934,6 +973,7 @@ MUTANTS = [
 ]
 
 EQUIV = [
+    _m('cache-vars-form', L2, "    if '_name_info' in cls.__dict__:", "    if '_name_info' in vars(cls):"),
     _m('overlap-symmetric-form', CONN, "      if x.start <= y.start:  return y.start < x.stop\n      else:                   return x.start < y.stop", "      return x.start < y.stop and y.start < x.stop"),
     _m('overlap-int-as-pair', CONN, "    if isinstance( y, int ):  return x == y", "    if isinstance( y, int ):  return not (x != y)"),
     _m('kahn-ready-eq-zero', SIMPLE, "        if not InD[v]:\n          Q.append( v )", "        if InD[v] == 0:\n          Q.append( v )"),
